@@ -49,7 +49,7 @@ Print Assumptions C09_once_spec.
 Theorem C09_findall_spec : forall call t g l s xs,
   call_goal call g [] s = (xs, false) ->
   builtin call (s_ "findall") [t; g; l] s =
-  Some (let '(es, b) := collect (nxt s) (nxt s) t xs in unify_st {| sto := sto s; nxt := b |} l (mk_list es)).
+  Some (let '(es, b) := collect 0 (nxt s) t xs in unify_st {| sto := sto s; nxt := b |} l (mk_list es)).
 Proof. exact findall_spec. Qed.
 Print Assumptions C09_findall_spec.
 
@@ -57,29 +57,49 @@ Theorem C09_findall_one_instance_per_answer : forall lo t xs base, length (fst (
 Proof. exact collect_length. Qed.
 Print Assumptions C09_findall_one_instance_per_answer.
 
-(* the collected instances are the instances of T under each answer, in order; only variables that were
-   created while the answer was computed (cells >= lo) are renamed, to fresh ones *)
-Theorem C09_findall_instances : forall lo t xs base,
-  (forall x, In x xs -> forall v, occurs v (den_fast (sto x) t) = true -> v < lo) ->
-  fst (collect lo base t xs) = map (fun x => den_fast (sto x) t) xs.
-Proof. exact collect_older. Qed.
+(* the collected instances are COPIES of the instances of T under each answer, in order: instance j is the dereferenced
+   template with every variable c renamed to base_j + c (one injective renaming per instance), base_1 = the variable
+   counter of the call, base_(j+1) = base_j + the counter at answer j *)
+Theorem C09_findall_instances : forall t xs base,
+  fst (collect 0 base t xs) = map (fun bx => shift_by (fst bx) (den_fast (sto (snd bx)) t)) (combine (copy_bases base xs) xs) /\
+  snd (collect 0 base t xs) = fold_left (fun b x => b + nxt x) xs base.
+Proof. exact collect_copies. Qed.
 Print Assumptions C09_findall_instances.
+
+(* every variable of a collected instance is new (>= the counter of the call): an instance shares no variable with the
+   caller, the goal, the template or the bag *)
+Theorem C09_findall_copies_are_fresh : forall t xs base e v,
+  In e (fst (collect 0 base t xs)) -> occurs v e = true -> base <= v.
+Proof. exact collect_copies_fresh. Qed.
+Print Assumptions C09_findall_copies_are_fresh.
+
+(* and two different instances share no variable *)
+Theorem C09_findall_copies_are_disjoint : forall t xs base i j ei ej v,
+  (forall x, In x xs -> forall w, occurs w (den_fast (sto x) t) = true -> w < nxt x) ->
+  nth_error (fst (collect 0 base t xs)) i = Some ei -> nth_error (fst (collect 0 base t xs)) j = Some ej ->
+  occurs v ei = true -> occurs v ej = true -> i = j.
+Proof. exact collect_copies_disjoint. Qed.
+Print Assumptions C09_findall_copies_are_disjoint.
 
 Theorem C09_findall_at_most_once : forall call t g l s r,
   builtin call (s_ "findall") [t; g; l] s = Some r -> length (fst r) <= 1.
 Proof. exact findall_at_most_once. Qed.
 Print Assumptions C09_findall_at_most_once.
 
-(* ... and ONLY those: an unbound variable of the caller that occurs in an instance is not copied, it is the caller's
-   variable itself inside the list (this engine's findall/3; standard Prolog collects renamed copies).  Witness, on the
-   compiled-code model and on the clause-level reference:  t(V) :- findall(X, X = V, [b]).   ?- t(V).   answers V = b
-   (reported as a finding in notes/C09.md; the implementation answers V = b as well). *)
-Theorem C09_findall_shares_caller_variables :
+(* non-vacuity / witness: an unbound variable of the caller inside an instance is a NEW variable inside the list (the
+   engine copies since the repair D27, as standard Prolog).  On the compiled-code model and on the clause-level reference:
+     t(V) :- findall(X, X = V, [b]).         ?- t(V).     one answer, V stays unbound (before D27: V = b)
+     u(V,L) :- findall(X, X = V, L), V = a.   ?- u(V,L).   V = a and L = [_G], _G a variable other than V (before: L = [a]) *)
+Theorem C09_findall_copies_instances :
   exists ir, compile_program share_prog = Some ir /\
-  map (fun x => den (sto x) (TVar 0)) (fst (query 10 ir (d "t") [TVar 0] {| sto := []; nxt := 1 |})) = [TAtom (d "b")] /\
-  map (fun x => den (sto x) (TVar 0)) (fst (solveA 10 share_prog (d "t") [TVar 0] {| sto := []; nxt := 1 |})) = [TAtom (d "b")].
-Proof. exact findall_shares_caller_variables. Qed.
-Print Assumptions C09_findall_shares_caller_variables.
+  map (fun x => den (sto x) (TVar 0)) (fst (query 10 ir (d "t") [TVar 0] {| sto := []; nxt := 1 |})) = [TVar 0] /\
+  map (fun x => den (sto x) (TVar 0)) (fst (solveA 10 share_prog (d "t") [TVar 0] {| sto := []; nxt := 1 |})) = [TVar 0] /\
+  map (fun x => match den (sto x) (TVar 1) with
+                | TFun _ [e; _] => (den (sto x) (TVar 0), is_var_other_than 0 e)
+                | _ => (TVar 0, false) end)
+      (fst (query 10 ir (d "u") [TVar 0; TVar 1] {| sto := []; nxt := 2 |})) = [(TAtom (d "a"), true)].
+Proof. exact findall_copies_instances. Qed.
+Print Assumptions C09_findall_copies_instances.
 
 (* X = Y has the answers of unification (C02) *)
 Theorem C09_eq_spec : forall call a b s, builtin call (s_ "=") [a; b] s = Some (unify_st s a b).
@@ -171,9 +191,9 @@ Print Assumptions C09_findall_bag_after_enumeration.
 (* non-vacuity: a goal whose SECOND answer exists only while V is unbound-or-b, called with a partial list as bag that
    shares V with the goal through the first instance:
      r(V,X) :- X = V.      r(V,X) :- V = b, X = c.      t(V,T) :- findall(X, r(V,X), [a|T]).
-   On its own r(V,X) has the answers X = V and V = b, X = c, so the instances are [V, c] and [a|T] = [V, c] gives
-   V = a, T = [c].  (Matching the bag while r is still running would bind V to a after the first answer and lose the
-   second: T = [].) *)
+   On its own r(V,X) has the answers X = V and V = b, X = c, so the instances are [_G, c] (the first one a copy of the
+   unbound V) and [a|T] = [_G, c] gives T = [c] and leaves V unbound.  (Matching the bag while r is still running
+   would bind V to a after the first answer and lose the second: T = [].) *)
 Definition bag_prog : program :=
   [ {| c_name := d "r"; c_args := [SVar (d "V"); SVar (d "X")]; c_body := BCall (d "=") [SVar (d "X"); SVar (d "V")] |};
     {| c_name := d "r"; c_args := [SVar (d "V"); SVar (d "X")];
@@ -184,7 +204,7 @@ Example C09_bag_nonvacuous :
   good_program bag_prog /\
   exists ir, compile_program bag_prog = Some ir /\
   map (fun x => (den (sto x) (TVar 0), den (sto x) (TVar 1))) (fst (query 10 ir (d "t") [TVar 0; TVar 1] {| sto := []; nxt := 2 |}))
-  = [(TAtom (d "a"), mk_list [TAtom (d "c")])].
+  = [(TVar 0, mk_list [TAtom (d "c")])].
 Proof.
   split.
   - repeat constructor.
@@ -214,15 +234,16 @@ Print Assumptions C09_findall_is_collect_then_match.
 
 (* non-vacuity: the hypotheses hold for the call of bag_prog above - template X = cell 2, goal r(V,X) with V = cell 0,
    bag [a|T] with T = cell 1, auxiliary variable cell 3, in the empty store with 4 cells allocated; the collected list is
-   [V, c] and the match binds V to a and T to [c] *)
+   [_4, c] (the first instance is a copy of the unbound V: cell 0 of the first answer moved to 4 + 0) and the match binds
+   that copy to a and T to [c] *)
 Example C09_collect_then_match_nonvacuous :
   let call := query 9 (match compile_program bag_prog with Some ir => ir | None => [] end) in
   let s := {| sto := []; nxt := 4 |} in
   let g := TFun (d "r") [TVar 0; TVar 2] in
   let l := cons_term (TAtom (d "a")) (TVar 1) in
-  findall_collected call (TVar 2) g s = Some ([TVar 0; TAtom (d "c")], 4) /\
+  findall_collected call (TVar 2) g s = Some ([TVar 4; TAtom (d "c")], 12) /\
   wf (sto s) /\ lookup 3 (sto s) = None /\ occurs 3 (den (sto s) l) = false /\
-  occurs 3 (den (sto s) (mk_list [TVar 0; TAtom (d "c")])) = false /\
-  unify ufuel [] (den (sto s) l) (den (sto s) (mk_list [TVar 0; TAtom (d "c")])) =
-    UOk [(1, mk_list [TAtom (d "c")]); (0, TAtom (d "a"))].
+  occurs 3 (den (sto s) (mk_list [TVar 4; TAtom (d "c")])) = false /\
+  unify ufuel [] (den (sto s) l) (den (sto s) (mk_list [TVar 4; TAtom (d "c")])) =
+    UOk [(1, mk_list [TAtom (d "c")]); (4, TAtom (d "a"))].
 Proof. vm_compute. repeat split; constructor. Qed.
